@@ -151,6 +151,10 @@ def hassh_tabulation(report, h, hs, thorough=False):
         return NotImplemented
     params = [a.arg for a in h.node.args.args if a.arg not in ('self', 'cls')]
     n = 0
+    # helper methods of the class (a per-name or per-list helper) are evaluated from their own statements
+    from ..miniexec import class_call_hook
+    chook = class_call_hook(h.cls, hook, None)
+    cnames = chook.name_hook_for(h.module, None)
     try:
         for combo in itertools.product(range(len(pools)), repeat=4):
             if not thorough and n >= 200 and 0 not in combo:
@@ -159,7 +163,7 @@ def hassh_tabulation(report, h, hs, thorough=False):
             report.count('C16.R1')
             vectors = [pools[i] for i in combo]
             fed.clear()
-            ev = Evaluator({params[0]: vectors}, hook, None)
+            ev = Evaluator({params[0]: vectors}, chook, cnames)
             got = ev.function(h.node)
             text = hs['list_separator'].join(hs['item_separator'].join(x if isinstance(x, str) else x.value.code for x in v) for v in vectors)
             want = hashlib.md5(text.encode('ascii')).hexdigest()
@@ -212,7 +216,8 @@ def fingerprint_tabulation(ctx, report, pk, fp, fr, hk, spec):
         if name.startswith('Hash.') and name.split('.', 1)[1] in tokens:
             return tokens[name.split('.', 1)[1]]
         raise Unsupported('free name %s' % name)
-    hook = class_call_hook(pk, extra, None)
+    hook = class_call_hook(pk, extra, ctx.model)
+    names = hook.name_hook_for(pk.module, names)
     try:
         for blob in (b'\x00\x00\x00\x0bssh-ed25519\x00\x00\x00\x20' + bytes(range(32)), b'\x00\x00\x00\x07ssh-rsa' + b'\x01' * 270, b''):
             report.count('C16.R2')
